@@ -156,10 +156,10 @@ func (c *updater) setAuthExternal(config ConfigValueGetter, auth *hatypes.AuthEx
 			}
 		}
 		// TODO track
-		backend = c.haproxy.Backends().AcquireAuthBackend(ipList, port, hostname)
 		if secure {
-			backend.Server.Secure = secure
-			backend.Server.SNI = fmt.Sprintf("str(%s)", hostname)
+			backend = c.haproxy.Backends().AcquireSecureAuthBackend(ipList, port, hostname)
+		} else {
+			backend = c.haproxy.Backends().AcquireAuthBackend(ipList, port, hostname)
 		}
 	case "service", "svc":
 		if urlPort == "" {
